@@ -105,7 +105,7 @@ def families(prop, tier):
         fams.append(dict(name='splitannounce-gdict', mode='dfs', depth=9 if q else 11, budget=1500 if q else 60000,
                          cfg=dict(backend='gdict', gate_store=True, announce=True, split=True, nmsgs=1, nrcpt=2, backoff=[None],
                                   outcomes=['ok'])))
-    if prop in ('C03', 'C13'):
+    if prop in ('C03', 'C13', 'C01'):
         import itertools as _it
         base = ['enq', 'write', 'announce', 'get', 'relay:ok', 'remove', 'write']
         plans = [base, ['enq', 'write', 'announce', 'get', 'relay:ok', 'write', 'remove'],
@@ -115,6 +115,13 @@ def families(prop, tier):
         fams.append(dict(name='splitplan-gdict', mode='plans', plans=plans,
                          cfg=dict(backend='gdict', gate_store=True, announce=True, split=True, nmsgs=1, nrcpt=2, backoff=[None],
                                   outcomes=['ok'])))
+        # the writes of the two envelopes of one enqueue() completing out of submission order (should the queue ever start
+        # them side by side), then different outcomes of the first attempts: each id must stay with its own envelope
+        oplans = [['enq', w1, w2, r1, r2, 'remove', 'increment_attempts', 'set_timestamp', 'get', 'relay:ok', 'remove']
+                  for w1, w2 in (('write#2', 'write'), ('write', 'write')) for r1, r2 in (('relay:ok', 'relay:T1'), ('relay:T1', 'relay:ok'), ('relay:P2', 'relay:ok'))]
+        fams.append(dict(name='splitorder-gdict', mode='plans', plans=oplans,
+                         cfg=dict(backend='gdict', gate_store=True, split=True, nmsgs=1, nrcpt=2, backoff=[0, None],
+                                  outcomes=['ok', 'T1', 'P2'])))
     if prop in ('C03', 'C13', 'C01'):
         # the window in which a finished message is still in storage (its removal has not completed): an announcement of
         # its id - or a stale timetable entry - must not start another attempt, nor a second bounce
